@@ -253,7 +253,7 @@ class ContinuousSpace:
         """
         dists, agents = self.calculate_distances(point)
 
-        indices = np.argpartition(dists, k)[:k]
+        indices = np.argpartition(dists, k - 1)[:k]
         agents = [agents[i] for i in indices]
         return agents, dists[indices]
 
